@@ -63,13 +63,13 @@ def mk_mo(tag):
 MO_ABS = {"r21": {"n": [12], "s": [4]}, "rnone": {"n": [], "s": []}, "u1110": {"n": [12], "s": [4]},
           "r22": {"n": [16], "s": [0]}}
 
-ATN = [None, [1], [1, 8], [6, 1], [8]]
-CORE = [None, [1.0], [0.5], [0.0, 8.0], [1.0, 5.75]]
+ATN = [None, [1], [1, 8], [6, 1], [8], []]
+CORE = [None, [1.0], [0.5], [0.0, 8.0], [1.0, 5.75], []]
 QS = [None, -1.0, 0.5, 1.0, 0.0]
 NES = [None, 0.0, 1.5, 9.0, 10.0]
 SPS = [None, 1.0, 0.0, 2.0]
 MOS = [None, "r21", "rnone", "u1110"]
-LENS = [None, 1, 2]
+LENS = [None, 0, 1, 2]
 PROPS = ["atcorenums", "charge", "nelec", "spinpol", "natom"]
 
 
@@ -267,7 +267,7 @@ def exhaustive(depth, alpha_name="full"):
 
 # ------------------------------------------------------------------ constructor variants
 CARGS = {"atnums": ATN[1:], "atcorenums": CORE[1:], "charge": QS[1:], "nelec": NES[1:], "spinpol": SPS[1:],
-         "mo": MOS[1:], "atcoords": [1, 2], "atmasses": [1, 2], "atgradient": [2], "atfrozen": [1]}
+         "mo": MOS[1:], "atcoords": [0, 1, 2], "atmasses": [1, 2], "atgradient": [0, 2], "atfrozen": [1]}
 
 
 def construct_variants(rng, nrandom):
